@@ -711,6 +711,44 @@ class FuncTranslator:
                     if used and used <= names and all(isinstance(m, (ast.Name, ast.BinOp, ast.Constant, ast.Add, ast.Sub, ast.Load, ast.UnaryOp, ast.USub))
                                                       for m in ast.walk(n.value)):
                         names.add(n.targets[0].id)
+            # counters: names that are only ever assigned integer literals / integer arithmetic on such names
+            def int_expr(e, ok):
+                if isinstance(e, ast.Constant):
+                    return isinstance(e.value, int) and not isinstance(e.value, bool)
+                if isinstance(e, ast.Name):
+                    return e.id in ok
+                if isinstance(e, ast.BinOp) and isinstance(e.op, (ast.Add, ast.Sub, ast.Mult)):
+                    return int_expr(e.left, ok) and int_expr(e.right, ok)
+                if isinstance(e, ast.UnaryOp) and isinstance(e.op, ast.USub):
+                    return int_expr(e.operand, ok)
+                if isinstance(e, ast.Call) and isinstance(e.func, ast.Name) and e.func.id == 'len':
+                    return True
+                return False
+            assigns = {}
+            loop_vars = set()
+            for n in ast.walk(scope):
+                if isinstance(n, ast.Assign) and len(n.targets) == 1 and isinstance(n.targets[0], ast.Name):
+                    assigns.setdefault(n.targets[0].id, []).append(n.value)
+                elif isinstance(n, ast.AugAssign) and isinstance(n.target, ast.Name):
+                    assigns.setdefault(n.target.id, []).append(ast.BinOp(left=ast.Name(id=n.target.id), op=n.op, right=n.value))
+                elif isinstance(n, ast.Assign) and len(n.targets) == 1 and isinstance(n.targets[0], ast.Tuple) \
+                        and isinstance(n.value, ast.Tuple) and len(n.value.elts) == len(n.targets[0].elts):
+                    for t, v in zip(n.targets[0].elts, n.value.elts):
+                        if isinstance(t, ast.Name):
+                            assigns.setdefault(t.id, []).append(v)
+                elif isinstance(n, ast.For):
+                    for m in ast.walk(n.target):
+                        if isinstance(m, ast.Name):
+                            loop_vars.add(m.id)
+            params = {a.arg for a in scope.args.args} if isinstance(scope, ast.FunctionDef) else set()
+            cand = {k for k in assigns if k not in params and k not in loop_vars}
+            changed = True
+            while changed:
+                changed = False
+                for k in list(cand):
+                    if not all(int_expr(v, cand | names) for v in assigns[k]):
+                        cand.discard(k); changed = True
+            names |= cand
             cache[id(scope)] = names
         return cache[id(scope)]
 
@@ -1266,7 +1304,7 @@ class FuncTranslator:
             if f == 'enumerate' and len(e.args) == 1:
                 l = self.iterable(e.args[0], env)
                 return Val('py_enumerate %s' % paren(l.s), TLst(TTup([Z, l.t.t])))
-            if f == 'range':
+            if f in ('range', 'xrange'):
                 args = [self.coerce(self.expr(a, env), Z) for a in e.args]
                 if len(args) == 1:
                     return Val('py_range 0%%Z %s' % paren(args[0]), TLst(Z))
